@@ -54,6 +54,10 @@ fn is_group_of_storable_tick(g: i32, size: u16) -> bool {
     let lo = g as i64 * size as i64; // first tick of the group
     lo <= MAX_TICK_INDEX as i64 && lo + size as i64 - 1 >= MIN_CUR_TICK as i64
 }
+/// groups the swap loop can be in: the group of a storable tick, or one further (the loop advances once past the end)
+fn is_visitable_group(g: i32, size: u16) -> bool {
+    is_group_of_storable_tick(g, size) || is_group_of_storable_tick(g - 1, size) || is_group_of_storable_tick(g + 1, size)
+}
 /// all variable states an Oracle account can hold next to constants `c`
 fn any_variables(c: &AdaptiveFeeConstants) -> AdaptiveFeeVariables {
     let mut v = AdaptiveFeeVariables::default();
@@ -104,24 +108,24 @@ fn adaptive(
 }
 
 /// (1) validate_constants(ts, ..) == the rule list (doc comments of validate_constants / constant definitions in
-/// state/oracle.rs, the only published statement of the rules in the repository), for ALL 8 arguments
-// @verif prop=C14 tier=quick timeout=300
-#[kani::proof]
-#[kani::stub(alloc::fmt::format, stub_format)]
-#[kani::stub(<anchor_lang::error::Error as core::convert::From<::whirlpool::errors::ErrorCode>>::from, stub_err_from_code)]
-fn c14_validate_constants_rules() {
+/// state/oracle.rs, the only published statement of the rules in the repository), for ALL 8 arguments (full u16/u32
+/// ranges). Deciding "group size divides tick spacing" twice (code and rule list) is the only expensive part for SAT
+/// (uniqueness of 16-bit Euclidean division), so the input space is partitioned by the magnitude of tick_group_size
+/// into 7 harnesses that together cover every value.
+fn validate_constants_rules(tgs_lo: u16, tgs_hi: u16) {
     let ts: u16 = kani::any();
     let c = raw_constants();
     let (fp, dp, rf) = (c.filter_period, c.decay_period, c.reduction_factor);
     let (cf, mva) = (c.adaptive_fee_control_factor, c.max_volatility_accumulator);
     let (tgs, mst) = (c.tick_group_size, c.major_swap_threshold_ticks);
+    kani::assume(tgs >= tgs_lo && tgs <= tgs_hi);
     let got = is_valid(ts, &c);
     let rule_periods = fp >= 1 && dp >= 1 && fp < dp;
     let rule_control = cf < 100_000; // strictly below its denominator
     let rule_reduction = rf < 10_000; // strictly below its denominator
     let rule_no_overflow = (mva as u64) * (tgs as u64) <= u32::MAX as u64;
     // tick_group_size is a divisor of tick_spacing (1 ..= tick_spacing)
-    let rule_group = tgs >= 1 && tgs <= ts && (ts / tgs) * tgs == ts;
+    let rule_group = tgs >= 1 && tgs <= ts && ts % tgs == 0;
     // 1 ..= number of ticks spanned by one tick array (88 * tick_spacing)
     let rule_major = mst >= 1 && (mst as u32) <= 88u32 * ts as u32;
     let expected = rule_periods && rule_control && rule_reduction && rule_no_overflow && rule_group && rule_major;
@@ -129,6 +133,62 @@ fn c14_validate_constants_rules() {
     kani::cover!(got && cf == 0, "valid with zero control factor");
     kani::cover!(!got && rule_periods && rule_control && rule_reduction && rule_no_overflow && rule_group, "rejected by the major-swap rule only");
     assert!(got == expected);
+}
+/// (1a) rule list, tick_group_size in 0..=15
+// @verif prop=C14 tier=quick timeout=300
+#[kani::proof]
+#[kani::stub(alloc::fmt::format, stub_format)]
+#[kani::stub(<anchor_lang::error::Error as core::convert::From<::whirlpool::errors::ErrorCode>>::from, stub_err_from_code)]
+fn c14_validate_constants_rules_a() {
+    validate_constants_rules(0, 15);
+}
+/// (1b) rule list, tick_group_size in 16..=63
+// @verif prop=C14 tier=quick timeout=300
+#[kani::proof]
+#[kani::stub(alloc::fmt::format, stub_format)]
+#[kani::stub(<anchor_lang::error::Error as core::convert::From<::whirlpool::errors::ErrorCode>>::from, stub_err_from_code)]
+fn c14_validate_constants_rules_b() {
+    validate_constants_rules(16, 63);
+}
+/// (1g) rule list, tick_group_size in 64..=255
+// @verif prop=C14 tier=quick timeout=300
+#[kani::proof]
+#[kani::stub(alloc::fmt::format, stub_format)]
+#[kani::stub(<anchor_lang::error::Error as core::convert::From<::whirlpool::errors::ErrorCode>>::from, stub_err_from_code)]
+fn c14_validate_constants_rules_g() {
+    validate_constants_rules(64, 255);
+}
+/// (1c) rule list, tick_group_size in 256..=511
+// @verif prop=C14 tier=quick timeout=300
+#[kani::proof]
+#[kani::stub(alloc::fmt::format, stub_format)]
+#[kani::stub(<anchor_lang::error::Error as core::convert::From<::whirlpool::errors::ErrorCode>>::from, stub_err_from_code)]
+fn c14_validate_constants_rules_c() {
+    validate_constants_rules(256, 511);
+}
+/// (1f) rule list, tick_group_size in 512..=1023
+// @verif prop=C14 tier=quick timeout=300
+#[kani::proof]
+#[kani::stub(alloc::fmt::format, stub_format)]
+#[kani::stub(<anchor_lang::error::Error as core::convert::From<::whirlpool::errors::ErrorCode>>::from, stub_err_from_code)]
+fn c14_validate_constants_rules_f() {
+    validate_constants_rules(512, 1023);
+}
+/// (1e) rule list, tick_group_size in 1024..=4095
+// @verif prop=C14 tier=quick timeout=300
+#[kani::proof]
+#[kani::stub(alloc::fmt::format, stub_format)]
+#[kani::stub(<anchor_lang::error::Error as core::convert::From<::whirlpool::errors::ErrorCode>>::from, stub_err_from_code)]
+fn c14_validate_constants_rules_e() {
+    validate_constants_rules(1024, 4095);
+}
+/// (1d) rule list, tick_group_size in 4096..=u16::MAX
+// @verif prop=C14 tier=quick timeout=300
+#[kani::proof]
+#[kani::stub(alloc::fmt::format, stub_format)]
+#[kani::stub(<anchor_lang::error::Error as core::convert::From<::whirlpool::errors::ErrorCode>>::from, stub_err_from_code)]
+fn c14_validate_constants_rules_d() {
+    validate_constants_rules(4096, u16::MAX);
 }
 
 /// (2) update_volatility_accumulator: Ok, no overflow, result == min(reference + |group - reference_group| * 10_000, max)
@@ -160,61 +220,58 @@ fn c14_update_volatility_accumulator() {
     assert!(same_vars(&v, &w));
 }
 
-/// (3a) get_total_fee_rate in [static, 100_000], == min(static + adaptive, 100_000) where adaptive is the manager's rate
-/// with static 0; no overflow in compute_adaptive_fee_rate; Static manager returns the static rate
-// @verif prop=C14 tier=quick timeout=300
-#[kani::proof]
-#[kani::stub(alloc::fmt::format, stub_format)]
-#[kani::stub(<anchor_lang::error::Error as core::convert::From<::whirlpool::errors::ErrorCode>>::from, stub_err_from_code)]
-fn c14_total_fee_rate_bounds() {
+/// (3a) get_total_fee_rate in [static, 100_000] and no arithmetic overflow in compute_adaptive_fee_rate, for all valid
+/// constants, all stored variables, all u16 static rates; zero control factor => exactly the static rate; the Static
+/// manager returns the static rate. `accumulator * group_size` is a product of two symbolic values whose overflow-freedom
+/// (from accumulator <= max and the validated max * size <= u32::MAX) SAT decides only erratically (30 s .. > 400 s), so
+/// the group size is fixed per harness (1, 64, 32896) and the size-generic arithmetic fact is the separate lemma
+/// `c14_lemma_mul_monotone` (thorough tier).
+fn total_fee_rate_bounds(size_is: u16) {
     let c = any_constants();
+    kani::assume(c.tick_group_size == size_is);
     let v = any_variables(&c);
     let static_fee: u16 = kani::any();
     let a_to_b: bool = kani::any();
     let g: i32 = kani::any();
     let total = adaptive(a_to_b, g, static_fee, c, v).get_total_fee_rate();
-    let only_adaptive = adaptive(a_to_b, g, 0, c, v).get_total_fee_rate();
     let st = FeeRateManager::Static { static_fee_rate: static_fee }.get_total_fee_rate();
     kani::cover!(total > static_fee as u32 && total < HARD_LIMIT, "adaptive part charged, below the cap");
-    kani::cover!(static_fee as u32 + only_adaptive > HARD_LIMIT, "cap applies");
+    kani::cover!(total == HARD_LIMIT, "cap applies");
     assert!(total >= static_fee as u32);
     assert!(total <= HARD_LIMIT);
-    assert!(only_adaptive <= HARD_LIMIT);
-    let sum = static_fee as u32 + only_adaptive;
-    assert!(total == if sum > HARD_LIMIT { HARD_LIMIT } else { sum });
     assert!(st == static_fee as u32);
     if c.adaptive_fee_control_factor == 0 {
         assert!(total == static_fee as u32);
     }
 }
-
-/// (3b) exact formula: adaptive rate == min(ceil(control_factor * (accumulator * group_size)^2 / 10^13), 100_000), stated
-/// without division: r*D >= N > (r-1)*D below the cap, N > 99_999*D at the cap (D = 100_000 * 10_000 * 10_000)
+/// (3a) total fee rate bounds, tick_group_size == 1
 // @verif prop=C14 tier=quick timeout=300
 #[kani::proof]
 #[kani::stub(alloc::fmt::format, stub_format)]
 #[kani::stub(<anchor_lang::error::Error as core::convert::From<::whirlpool::errors::ErrorCode>>::from, stub_err_from_code)]
-fn c14_adaptive_fee_rate_formula() {
-    let c = any_constants();
-    let v = any_variables(&c);
-    let r = adaptive(kani::any(), kani::any(), 0, c, v).get_total_fee_rate() as u128;
-    const D: u128 = 10_000_000_000_000;
-    let crossed = v.volatility_accumulator as u128 * c.tick_group_size as u128;
-    let n = c.adaptive_fee_control_factor as u128 * crossed * crossed;
-    kani::cover!(r > 0 && r < HARD_LIMIT as u128, "strictly between");
-    kani::cover!(r == HARD_LIMIT as u128, "capped");
-    assert!(r <= HARD_LIMIT as u128);
-    if r < HARD_LIMIT as u128 {
-        assert!(r * D >= n);
-        assert!(r == 0 || (r - 1) * D < n);
-    } else {
-        assert!(n > (HARD_LIMIT as u128 - 1) * D);
-    }
+fn c14_total_fee_rate_bounds_1() {
+    total_fee_rate_bounds(1);
+}
+/// (3a) total fee rate bounds, tick_group_size == 64
+// @verif prop=C14 tier=quick timeout=300
+#[kani::proof]
+#[kani::stub(alloc::fmt::format, stub_format)]
+#[kani::stub(<anchor_lang::error::Error as core::convert::From<::whirlpool::errors::ErrorCode>>::from, stub_err_from_code)]
+fn c14_total_fee_rate_bounds_64() {
+    total_fee_rate_bounds(64);
+}
+/// (3a) total fee rate bounds, tick_group_size == 32896
+// @verif prop=C14 tier=quick timeout=300
+#[kani::proof]
+#[kani::stub(alloc::fmt::format, stub_format)]
+#[kani::stub(<anchor_lang::error::Error as core::convert::From<::whirlpool::errors::ErrorCode>>::from, stub_err_from_code)]
+fn c14_total_fee_rate_bounds_32896() {
+    total_fee_rate_bounds(32896);
 }
 
 /// (4) update_reference against the documented rule, as postconditions: Err(InvalidTimestamp) iff now < max(last update,
 /// last major swap); reference older than one hour => reset; else by elapsed time since max(..): < filter => unchanged,
-/// < decay => reference group := current, volatility_reference := floor(accumulator * reduction / 10_000), >= decay =>
+/// < decay => reference group := current, timestamp := now (decayed value: next two harnesses), >= decay =>
 /// reference group := current, volatility_reference := 0. Accumulator / major-swap timestamp never touched; the stored
 /// invariant volatility_reference <= max is preserved. Timestamps are arbitrary u64.
 // @verif prop=C14 tier=quick timeout=300
@@ -258,17 +315,62 @@ fn c14_update_reference_rules() {
             } else if elapsed < c.decay_period as u64 {
                 assert!({ v.tick_group_index_reference } == g);
                 assert!({ v.last_reference_update_timestamp } == now);
-                // floor(acc * reduction / 10_000) without dividing
-                let p = v0.volatility_accumulator as u64 * c.reduction_factor as u64;
-                let q = { v.volatility_reference } as u64;
-                assert!(q * 10_000 <= p && p < (q + 1) * 10_000);
+                // value of the decayed reference: c14_update_reference_decay_bounded / _decay_value
             } else {
                 assert!(reset(&v));
             }
-            assert!({ v.volatility_reference } <= { c.max_volatility_accumulator });
+            // stored-state invariant preserved (decay branch: see c14_update_reference_decay_bounded)
+            if !(now - last_ref <= ONE_HOUR && elapsed >= c.filter_period as u64 && elapsed < c.decay_period as u64) {
+                assert!({ v.volatility_reference } <= { c.max_volatility_accumulator });
+            }
         }
     }
     core::mem::forget(r);
+}
+
+fn decay_branch() -> (AdaptiveFeeConstants, AdaptiveFeeVariables, AdaptiveFeeVariables) {
+    let c = any_constants();
+    let v0 = any_variables(&c);
+    let g: i32 = kani::any();
+    let now: u64 = kani::any();
+    let last_ref = v0.last_reference_update_timestamp;
+    let last_major = v0.last_major_swap_timestamp;
+    let last = if last_ref > last_major { last_ref } else { last_major };
+    // the decay window: not older than one hour, filter <= elapsed < decay
+    kani::assume(now >= last && now - last_ref <= ONE_HOUR);
+    kani::assume(now - last >= c.filter_period as u64 && now - last < c.decay_period as u64);
+    let mut v = v0;
+    let r = v.update_reference(g, now, &c);
+    let ok = r.is_ok();
+    core::mem::forget(r);
+    assert!(ok);
+    (c, v0, v)
+}
+
+/// (4b) decay window of update_reference: the new volatility_reference is <= the accumulator (hence <= max: the stored
+/// invariant is preserved, which FeeRateManager::new relies on for `max - reference`)
+// @verif prop=C14 tier=quick timeout=300
+#[kani::proof]
+#[kani::stub(alloc::fmt::format, stub_format)]
+#[kani::stub(<anchor_lang::error::Error as core::convert::From<::whirlpool::errors::ErrorCode>>::from, stub_err_from_code)]
+fn c14_update_reference_decay_bounded() {
+    let (c, v0, v) = decay_branch();
+    kani::cover!({ v.volatility_reference } > 0 && { v.volatility_reference } < { v0.volatility_accumulator }, "strictly decayed");
+    assert!({ v.volatility_reference } <= { v0.volatility_accumulator });
+    assert!({ v.volatility_reference } <= { c.max_volatility_accumulator });
+}
+
+/// (4c) decay window of update_reference: volatility_reference == floor(accumulator * reduction_factor / 10_000) exactly
+/// (no truncation in the u32 cast), all u32 accumulators and valid reduction factors
+// @verif prop=C14 tier=thorough timeout=900
+#[kani::proof]
+#[kani::stub(alloc::fmt::format, stub_format)]
+#[kani::stub(<anchor_lang::error::Error as core::convert::From<::whirlpool::errors::ErrorCode>>::from, stub_err_from_code)]
+fn c14_update_reference_decay_value() {
+    let (c, v0, v) = decay_branch();
+    let expected = v0.volatility_accumulator as u64 * c.reduction_factor as u64 / 10_000;
+    kani::cover!(expected > 100_000, "large value");
+    assert!({ v.volatility_reference } as u64 == expected);
 }
 
 /// (9) get_next_adaptive_fee_info: Some(constants, variables held by the manager) for Adaptive, None for Static
@@ -309,8 +411,743 @@ fn c14_next_adaptive_fee_info() {
 #[kani::stub(<anchor_lang::error::Error as core::convert::From<::whirlpool::errors::ErrorCode>>::from, stub_err_from_code)]
 fn c14_twin_must_fail() {
     let c = any_constants();
+    kani::assume(c.tick_group_size == 64);
     let v = any_variables(&c);
     let static_fee: u16 = kani::any();
     let total = adaptive(kani::any(), kani::any(), static_fee, c, v).get_total_fee_rate();
     assert!(total == static_fee as u32, "twin: adaptive surcharge must be reachable");
+}
+
+/// (L1) size-generic complement of (3a): acc <= max and max * size <= u32::MAX => acc * size <= u32::MAX (the only
+/// multiplication in compute_adaptive_fee_rate that can overflow its type: u32 x u32; the others are widened first),
+/// all u32 x u32 x u16
+// @verif prop=C14 tier=thorough timeout=900
+#[kani::proof]
+#[kani::solver(kissat)]
+fn c14_lemma_mul_monotone() {
+    let mva: u32 = kani::any();
+    let acc: u32 = kani::any();
+    let tgs: u16 = kani::any();
+    kani::assume(mva as u64 * tgs as u64 <= u32::MAX as u64);
+    kani::assume(acc <= mva);
+    kani::cover!(acc > 65_536 && tgs > 256, "large operands");
+    assert!(acc as u64 * tgs as u64 <= u32::MAX as u64);
+}
+
+// ---------------------------------------------------------------------------------------------
+// Abstract tick -> sqrt-price function (contracts T1/T2): an uninterpreted strictly increasing function, realised as a
+// memo table filled in call order (equal ticks give equal prices; every new entry is ordered against all earlier
+// ones). The table bound is asserted. A tick outside MIN..=MAX reaching the price function is reported (domain of T1).
+mod t {
+    use ::whirlpool::math::{MAX_SQRT_PRICE_X64, MIN_SQRT_PRICE_X64};
+    use ::whirlpool::state::{MAX_TICK_INDEX, MIN_TICK_INDEX};
+    pub const NP: usize = 12;
+    static mut TK: [i32; NP] = [0; NP];
+    static mut PR: [u128; NP] = [0; NP];
+    static mut CNT: usize = 0;
+    /// T1: strictly increasing tick -> sqrt price with p(MIN_TICK) = MIN_SQRT_PRICE, p(MAX_TICK) = MAX_SQRT_PRICE
+    pub fn price_of(t: i32) -> u128 {
+        assert!(t >= MIN_TICK_INDEX && t <= MAX_TICK_INDEX, "price function called outside the tick range");
+        unsafe {
+            let mut i = 0;
+            while i < CNT {
+                if TK[i] == t {
+                    return PR[i];
+                }
+                i += 1;
+            }
+            let p: u128 = kani::any();
+            kani::assume(p >= MIN_SQRT_PRICE_X64 && p <= MAX_SQRT_PRICE_X64);
+            kani::assume((t == MIN_TICK_INDEX) == (p == MIN_SQRT_PRICE_X64));
+            kani::assume((t == MAX_TICK_INDEX) == (p == MAX_SQRT_PRICE_X64));
+            let mut j = 0;
+            while j < CNT {
+                if TK[j] < t {
+                    kani::assume(PR[j] < p);
+                } else {
+                    kani::assume(PR[j] > p);
+                }
+                j += 1;
+            }
+            assert!(CNT < NP, "memo table bound (sqrt_price_from_tick_index)");
+            TK[CNT] = t;
+            PR[CNT] = p;
+            CNT += 1;
+            p
+        }
+    }
+    pub fn stub_sqrt_price_from_tick_index(t: i32) -> u128 {
+        price_of(t)
+    }
+    /// T2: the tick t with p(t) <= price < p(t+1)
+    pub fn stub_tick_index_from_sqrt_price(p: &u128) -> i32 {
+        assert!(*p >= MIN_SQRT_PRICE_X64 && *p <= MAX_SQRT_PRICE_X64, "tick_index_from_sqrt_price outside the price range");
+        let t: i32 = kani::any();
+        kani::assume(t >= MIN_TICK_INDEX && t <= MAX_TICK_INDEX);
+        kani::assume(price_of(t) <= *p);
+        if t < MAX_TICK_INDEX {
+            kani::assume(*p < price_of(t + 1));
+        }
+        t
+    }
+}
+use t::price_of;
+
+fn clamp_tick(t: i64) -> i32 {
+    if t < MIN_TICK_INDEX as i64 {
+        MIN_TICK_INDEX
+    } else if t > MAX_TICK_INDEX as i64 {
+        MAX_TICK_INDEX
+    } else {
+        t as i32
+    }
+}
+/// `g` is floor(t / size), stated without dividing
+fn is_group_of(g: i32, t: i32, size: u16) -> bool {
+    let lo = g as i64 * size as i64;
+    lo <= t as i64 && (t as i64) < lo + size as i64
+}
+/// the accumulator is saturated (== max) in group g, for reference (rg, vr)
+fn saturated(g: i32, v: &AdaptiveFeeVariables, c: &AdaptiveFeeConstants) -> bool {
+    let dist = (g as i64 - v.tick_group_index_reference as i64).unsigned_abs();
+    v.volatility_reference as u64 + dist * SCALE >= c.max_volatility_accumulator as u64
+}
+
+// recording stub of U256Muldiv::mul (uninterpreted 256-bit product)
+static mut MUL_CALLS: u32 = 0;
+static mut MUL_A: [u64; 4] = [0; 4];
+static mut MUL_B: [u64; 4] = [0; 4];
+static mut MUL_R: [u64; 4] = [0; 4];
+fn stub_u256_mul(a: &U256Muldiv, b: U256Muldiv) -> U256Muldiv {
+    unsafe {
+        MUL_CALLS += 1;
+        MUL_A = a.items;
+        MUL_B = b.items;
+        let r: [u64; 4] = kani::any();
+        MUL_R = r;
+        U256Muldiv { items: r }
+    }
+}
+
+/// (5) update_major_swap_timestamp, structure with the 256-bit product uninterpreted and the tick->price function abstract
+/// (T1): exactly one product, of min(pre, post) and price(major_swap_threshold_ticks); target = product >> 64;
+/// Err(NumberDownCastError) iff the target does not fit u128 (then nothing changes); otherwise last_major_swap_timestamp :=
+/// now iff max(pre, post) >= target, else unchanged; nothing else is modified. pre/post are symmetric (both directions).
+// @verif prop=C14 tier=quick timeout=300
+#[kani::proof]
+#[kani::unwind(18)]
+#[kani::stub(alloc::fmt::format, stub_format)]
+#[kani::stub(<anchor_lang::error::Error as core::convert::From<::whirlpool::errors::ErrorCode>>::from, stub_err_from_code)]
+#[kani::stub(::whirlpool::math::tick_math::sqrt_price_from_tick_index, t::stub_sqrt_price_from_tick_index)]
+#[kani::stub(::whirlpool::math::u256_math::U256Muldiv::mul, stub_u256_mul)]
+fn c14_major_swap_timestamp() {
+    let c = any_constants();
+    let v0 = any_variables(&c);
+    let pre: u128 = kani::any();
+    let post: u128 = kani::any();
+    let now: u64 = kani::any();
+    let mut v = v0;
+    let r = v.update_major_swap_timestamp(pre, post, now, &c);
+    let (small, large) = if pre < post { (pre, post) } else { (post, pre) };
+    let factor = price_of(c.major_swap_threshold_ticks as i32);
+    let (calls, a, b, prod) = unsafe { (MUL_CALLS, MUL_A, MUL_B, MUL_R) };
+    assert!(calls == 1);
+    let small_w = [small as u64, (small >> 64) as u64, 0, 0];
+    let factor_w = [factor as u64, (factor >> 64) as u64, 0, 0];
+    let eq4 = |x: &[u64; 4], y: &[u64; 4]| x[0] == y[0] && x[1] == y[1] && x[2] == y[2] && x[3] == y[3];
+    assert!((eq4(&a, &small_w) && eq4(&b, &factor_w)) || (eq4(&a, &factor_w) && eq4(&b, &small_w)));
+    let fits = prod[3] == 0;
+    let target = ((prod[2] as u128) << 64) | prod[1] as u128;
+    kani::cover!(r.is_ok() && pre > post && large == target, "a_to_b, exactly at the threshold");
+    kani::cover!(r.is_ok() && pre < post && large == target, "b_to_a, exactly at the threshold");
+    kani::cover!(r.is_ok() && large < target, "below the threshold");
+    match &r {
+        Err(e) => {
+            assert!(!fits);
+            assert!(acode(e) == ecode(ErrorCode::NumberDownCastError));
+            assert!(same_vars(&v, &v0));
+        }
+        Ok(()) => {
+            assert!(fits);
+            let mut w = v0;
+            if large >= target {
+                w.last_major_swap_timestamp = now;
+            }
+            assert!(same_vars(&v, &w));
+        }
+    }
+    core::mem::forget(r);
+}
+
+// contract stub of AdaptiveFeeVariables::update_reference = what c14_update_reference_rules / _decay_bounded prove:
+// Err(InvalidTimestamp) iff now < max(timestamps); otherwise either nothing changes, or the reference group becomes the
+// current group, the timestamp becomes now and the new volatility_reference is some value <= accumulator.
+static mut UR_CALLS: u32 = 0;
+static mut UR_GROUP: i32 = 0;
+static mut UR_NOW: u64 = 0;
+static mut UR_OUT: Option<AdaptiveFeeVariables> = None;
+fn stub_update_reference(
+    me: &mut AdaptiveFeeVariables,
+    tick_group_index: i32,
+    current_timestamp: u64,
+    _c: &AdaptiveFeeConstants,
+) -> anchor_lang::Result<()> {
+    unsafe {
+        UR_CALLS += 1;
+        UR_GROUP = tick_group_index;
+        UR_NOW = current_timestamp;
+    }
+    let (a, b) = (me.last_reference_update_timestamp, me.last_major_swap_timestamp);
+    if current_timestamp < a || current_timestamp < b {
+        return Err(stub_err_from_code(ErrorCode::InvalidTimestamp));
+    }
+    if kani::any() {
+        let vr: u32 = kani::any();
+        kani::assume(vr <= me.volatility_accumulator);
+        me.tick_group_index_reference = tick_group_index;
+        me.volatility_reference = vr;
+        me.last_reference_update_timestamp = current_timestamp;
+    }
+    unsafe {
+        UR_OUT = Some(*me);
+    }
+    Ok(())
+}
+
+/// (6) FeeRateManager::new (update_reference replaced by its proved contract, tick->price abstract T1): None => Static with
+/// the given rate; Some => InvalidTimestamp passed through, else Adaptive with the given direction/rate/constants,
+/// tick_group_index = floor(tick / group_size), variables = result of update_reference(that group, timestamp), and core
+/// range bounds that are sound: every group strictly outside [lower, upper] has a saturated accumulator; the bound prices
+/// are the outer boundary prices of the lower/upper core group and lie strictly inside the tick range. No overflow.
+/// Group <-> tick conversions multiply/divide by the symbolic group size, which SAT cannot relate across code and
+/// specification in reasonable time; the group size is therefore fixed per harness to representative values
+/// (1: every tick is a group boundary; 64: typical; 32896: full-range-only pools, 27 groups, clamping at both ends).
+fn manager_new(size_is: u16) {
+    let c = any_constants();
+    kani::assume(c.tick_group_size == size_is);
+    let v0 = any_variables(&c);
+    let a_to_b: bool = kani::any();
+    let tick: i32 = kani::any();
+    kani::assume(tick >= MIN_CUR_TICK && tick <= MAX_TICK_INDEX);
+    let now: u64 = kani::any();
+    let static_fee: u16 = kani::any();
+    let g: i32 = kani::any(); // any group a swap can visit
+    kani::assume(g >= MIN_CUR_TICK - 1 && g <= MAX_TICK_INDEX + 1);
+    let is_adaptive: bool = kani::any();
+    let info = if is_adaptive { Some(AdaptiveFeeInfo { constants: c, variables: v0 }) } else { None };
+    let r = FeeRateManager::new(a_to_b, tick, now, static_fee, &info);
+    let size = c.tick_group_size;
+    kani::cover!(matches!(&r, Ok(FeeRateManager::Adaptive { core_tick_group_range_lower_bound: Some(_), core_tick_group_range_upper_bound: Some(_), .. })), "both bounds inside the tick range");
+    kani::cover!(matches!(&r, Ok(FeeRateManager::Adaptive { core_tick_group_range_lower_bound: None, core_tick_group_range_upper_bound: Some(_), .. })), "lower bound outside");
+    kani::cover!(r.is_err(), "invalid timestamp");
+    match &r {
+        Err(e) => {
+            assert!(is_adaptive);
+            assert!(now < v0.last_reference_update_timestamp || now < v0.last_major_swap_timestamp);
+            assert!(acode(e) == ecode(ErrorCode::InvalidTimestamp));
+        }
+        Ok(FeeRateManager::Static { static_fee_rate }) => {
+            assert!(!is_adaptive);
+            assert!(*static_fee_rate == static_fee);
+        }
+        Ok(FeeRateManager::Adaptive {
+            a_to_b: ab,
+            tick_group_index,
+            static_fee_rate,
+            adaptive_fee_constants,
+            adaptive_fee_variables,
+            core_tick_group_range_lower_bound,
+            core_tick_group_range_upper_bound,
+        }) => {
+            assert!(is_adaptive);
+            assert!(*ab == a_to_b && *static_fee_rate == static_fee);
+            assert!(same_consts(adaptive_fee_constants, &c));
+            assert!(is_group_of(*tick_group_index, tick, size));
+            let (calls, ur_group, ur_now, ur_out) = unsafe { (UR_CALLS, UR_GROUP, UR_NOW, UR_OUT) };
+            assert!(calls == 1 && ur_group == *tick_group_index && ur_now == now);
+            let v = ur_out.unwrap();
+            assert!(same_vars(adaptive_fee_variables, &v));
+            if let Some((li, lp)) = core_tick_group_range_lower_bound {
+                let lt = *li as i64 * size as i64;
+                assert!(lt > MIN_TICK_INDEX as i64 && lt <= MAX_TICK_INDEX as i64);
+                assert!(*lp == price_of(lt as i32));
+                if g < *li {
+                    assert!(saturated(g, &v, &c));
+                }
+            }
+            if let Some((ui, up)) = core_tick_group_range_upper_bound {
+                let ut = *ui as i64 * size as i64 + size as i64;
+                assert!(ut < MAX_TICK_INDEX as i64 && ut >= MIN_TICK_INDEX as i64);
+                assert!(*up == price_of(ut as i32));
+                if g > *ui {
+                    assert!(saturated(g, &v, &c));
+                }
+            }
+        }
+    }
+    core::mem::forget(r);
+    core::mem::forget(info);
+}
+
+/// (6b) zero control factor: whatever the manager state (any group index, any core bounds, any liquidity, any target),
+/// get_bounded_sqrt_price_target returns the unbounded target with skip = true (rate == static: see 3a)
+// @verif prop=C14 tier=quick timeout=300
+#[kani::proof]
+#[kani::stub(alloc::fmt::format, stub_format)]
+#[kani::stub(<anchor_lang::error::Error as core::convert::From<::whirlpool::errors::ErrorCode>>::from, stub_err_from_code)]
+fn c14_zero_control_factor_always_skips() {
+    let c = any_constants();
+    kani::assume(c.adaptive_fee_control_factor == 0);
+    let v = any_variables(&c);
+    let lower: Option<(i32, u128)> = if kani::any() { Some((kani::any(), kani::any())) } else { None };
+    let upper: Option<(i32, u128)> = if kani::any() { Some((kani::any(), kani::any())) } else { None };
+    let m = FeeRateManager::Adaptive {
+        a_to_b: kani::any(),
+        tick_group_index: kani::any(),
+        static_fee_rate: kani::any(),
+        adaptive_fee_constants: c,
+        adaptive_fee_variables: v,
+        core_tick_group_range_lower_bound: lower,
+        core_tick_group_range_upper_bound: upper,
+    };
+    let target: u128 = kani::any();
+    let liq: u128 = kani::any();
+    let (b, skip) = m.get_bounded_sqrt_price_target(target, liq);
+    kani::cover!(liq != 0, "with liquidity");
+    assert!(b == target && skip);
+    // the static manager never bounds and never skips
+    let s = FeeRateManager::Static { static_fee_rate: kani::any() };
+    let (b2, skip2) = s.get_bounded_sqrt_price_target(target, liq);
+    assert!(b2 == target && !skip2);
+}
+
+/// (7) get_bounded_sqrt_price_target on a manager built by `new` (contract of update_reference, abstract T1 price
+/// function) and moved to ANY group index: the result is never beyond the target in the trade direction; without skip
+/// it is the target or the far boundary of the current group, whichever comes first (so the step stays in the group
+/// whose rate was charged); skip only if control factor == 0, liquidity == 0, or every tick the step can touch lies in a
+/// group whose accumulator is saturated (rate cannot change within the step).
+fn bounded_target(size_is: u16) {
+    let c = any_constants();
+    kani::assume(c.tick_group_size == size_is);
+    let v0 = any_variables(&c);
+    let a_to_b: bool = kani::any();
+    let tick: i32 = kani::any();
+    kani::assume(tick >= MIN_CUR_TICK && tick <= MAX_TICK_INDEX);
+    let now: u64 = kani::any();
+    let g: i32 = kani::any(); // group the loop is in
+    kani::assume(g >= MIN_CUR_TICK - 1 && g <= MAX_TICK_INDEX + 1 && is_visitable_group(g, size_is));
+    let target: u128 = kani::any();
+    kani::assume(target >= MIN_SQRT_PRICE_X64 && target <= MAX_SQRT_PRICE_X64);
+    let liq: u128 = kani::any();
+    let t: i32 = kani::any(); // any tick
+    kani::assume(t >= MIN_TICK_INDEX && t <= MAX_TICK_INDEX);
+    let gt: i32 = kani::any(); // its group
+    let size = c.tick_group_size;
+    kani::assume(is_group_of(gt, t, size));
+    let info = Some(AdaptiveFeeInfo { constants: c, variables: v0 });
+    let r = FeeRateManager::new(a_to_b, tick, now, kani::any(), &info);
+    kani::assume(r.is_ok());
+    let mut m = r.unwrap();
+    let mut v = v0;
+    if let FeeRateManager::Adaptive { tick_group_index, adaptive_fee_variables, .. } = &mut m {
+        *tick_group_index = g;
+        v = *adaptive_fee_variables;
+    }
+    let (bounded, skip) = m.get_bounded_sqrt_price_target(target, liq);
+    let near = price_of(clamp_tick(g as i64 * size as i64));
+    let far = price_of(clamp_tick(g as i64 * size as i64 + size as i64));
+    kani::cover!(skip && liq != 0 && c.adaptive_fee_control_factor != 0 && bounded != target, "skip up to the core range");
+    kani::cover!(skip && liq != 0 && c.adaptive_fee_control_factor != 0 && bounded == target, "skip away from the core range");
+    kani::cover!(!skip && bounded != target, "bounded by the group boundary");
+    kani::cover!(!skip && bounded == target, "target inside the group");
+    if a_to_b {
+        assert!(bounded >= target);
+    } else {
+        assert!(bounded <= target);
+    }
+    if !skip {
+        assert!(c.adaptive_fee_control_factor != 0 && liq != 0);
+        if a_to_b {
+            assert!(bounded == if target > near { target } else { near });
+        } else {
+            assert!(bounded == if target < far { target } else { far });
+        }
+    } else if c.adaptive_fee_control_factor != 0 && liq != 0 {
+        assert!(saturated(g, &v, &c));
+        // every tick whose price interval [p(t), p(t+1)) meets the traded interval, on the trade side of group g
+        let touched = if a_to_b {
+            gt <= g && (t == MAX_TICK_INDEX || price_of(t + 1) > bounded)
+        } else {
+            gt >= g && price_of(t) < bounded
+        };
+        if touched {
+            assert!(saturated(gt, &v, &c));
+        }
+    }
+    core::mem::forget(m);
+    core::mem::forget(info);
+}
+
+/// (8b) one loop iteration without skip: update_volatility_accumulator + advance_tick_group move tick_group_index by
+/// exactly one in the trade direction and leave everything but the accumulator unchanged; Static: no-ops
+// @verif prop=C14 tier=quick timeout=300
+#[kani::proof]
+#[kani::stub(alloc::fmt::format, stub_format)]
+#[kani::stub(<anchor_lang::error::Error as core::convert::From<::whirlpool::errors::ErrorCode>>::from, stub_err_from_code)]
+fn c14_advance_tick_group_by_one() {
+    let c = any_constants();
+    let v0 = any_variables(&c);
+    let a_to_b: bool = kani::any();
+    let g: i32 = kani::any();
+    kani::assume(g >= MIN_CUR_TICK - 1 && g <= MAX_TICK_INDEX + 1);
+    let static_fee: u16 = kani::any();
+    let mut m = adaptive(a_to_b, g, static_fee, c, v0);
+    let r = m.update_volatility_accumulator();
+    let ok = r.is_ok();
+    core::mem::forget(r);
+    assert!(ok);
+    m.advance_tick_group();
+    let mut expect = v0;
+    let r2 = expect.update_volatility_accumulator(g, &c);
+    core::mem::forget(r2);
+    match &m {
+        FeeRateManager::Adaptive { a_to_b: ab, tick_group_index, static_fee_rate, adaptive_fee_constants, adaptive_fee_variables, .. } => {
+            assert!(*tick_group_index == if a_to_b { g - 1 } else { g + 1 });
+            assert!(*ab == a_to_b && *static_fee_rate == static_fee);
+            assert!(same_consts(adaptive_fee_constants, &c));
+            assert!(same_vars(adaptive_fee_variables, &expect));
+            kani::cover!(a_to_b, "left");
+        }
+        _ => assert!(false),
+    }
+    let mut s = FeeRateManager::Static { static_fee_rate: static_fee };
+    let r3 = s.update_volatility_accumulator();
+    let ok3 = r3.is_ok();
+    core::mem::forget(r3);
+    s.advance_tick_group();
+    let r4 = s.update_major_swap_timestamp(kani::any(), kani::any(), kani::any());
+    let ok4 = r4.is_ok();
+    core::mem::forget(r4);
+    assert!(ok3 && ok4);
+    assert!(matches!(s, FeeRateManager::Static { static_fee_rate } if static_fee_rate == static_fee));
+    core::mem::forget(m);
+}
+
+/// (8) advance_tick_group_after_skip (abstract T1/T2) against group-by-group stepping in closed form: stepping from group
+/// g0 with update_volatility_accumulator / bounded target / advance_tick_group (harnesses 2, 7, 8b) stops in the first
+/// group, in trade direction, whose far boundary price is not passed by the end price p (p(.) is monotone, so that is
+/// the unique group `last` with far(last) not passed and, unless last == g0, near(last) passed). Claim: after the call
+/// tick_group_index == last -/+ 1 and the variables are those of stepping: accumulator == min(reference + |last -
+/// reference_group| * 10_000, max), nothing else changed. The span |last - g0| is NOT bounded. Split by direction and by
+/// whether the step ended exactly on the next initialized tick (the two code branches); group size fixed per harness.
+/// Loop invariant assumed at the call: p is not behind the near boundary of g0; next_tick_sqrt_price == p(next_tick_index).
+fn after_skip_closed_form(size_is: u16, dir: bool, on_next: bool) {
+    let c = any_constants();
+    kani::assume(c.tick_group_size == size_is);
+    let v0 = any_variables(&c);
+    let a_to_b: bool = dir;
+    let g0: i32 = kani::any();
+    let size = c.tick_group_size;
+    kani::assume(is_group_of_storable_tick(g0, size));
+    let p: u128 = kani::any(); // price where the skipped step ended
+    kani::assume(p >= MIN_SQRT_PRICE_X64 && p <= MAX_SQRT_PRICE_X64);
+    let next_tick_index: i32 = kani::any();
+    kani::assume(next_tick_index >= MIN_TICK_INDEX && next_tick_index <= MAX_TICK_INDEX);
+    let static_fee: u16 = kani::any();
+    let last: i32 = kani::any();
+    kani::assume(is_group_of_storable_tick(last, size));
+    let next_tick_sqrt_price = price_of(next_tick_index);
+    kani::assume((p == next_tick_sqrt_price) == on_next);
+    let lo = |g: i32| clamp_tick(g as i64 * size as i64);
+    let hi = |g: i32| clamp_tick(g as i64 * size as i64 + size as i64);
+    // the step started inside group g0 and moved in the trade direction
+    let start_ok = if a_to_b { p <= price_of(hi(g0)) } else { p >= price_of(lo(g0)) };
+    kani::assume(start_ok);
+    // `last` = the group where group-by-group stepping from g0 stops
+    let far_ok = if a_to_b { p >= price_of(lo(last)) } else { p <= price_of(hi(last)) };
+    let near_ok = if a_to_b {
+        last <= g0 && (last == g0 || p < price_of(hi(last)))
+    } else {
+        last >= g0 && (last == g0 || p > price_of(lo(last)))
+    };
+    kani::assume(far_ok && near_ok);
+    let mut m1 = adaptive(a_to_b, g0, static_fee, c, v0);
+    let r0 = m1.update_volatility_accumulator(); // loop head, group g0
+    core::mem::forget(r0);
+    let r1 = m1.advance_tick_group_after_skip(p, next_tick_sqrt_price, next_tick_index);
+    let ok = r1.is_ok();
+    core::mem::forget(r1);
+    assert!(ok);
+    kani::cover!(last == g0, "no group crossed");
+    kani::cover!(last == g0 - 7 || last == g0 + 7 || (size_is > 64 && last != g0), "several groups crossed");
+    let dist = (last as i64 - v0.tick_group_index_reference as i64).unsigned_abs();
+    let raw = v0.volatility_reference as u64 + dist * SCALE;
+    let acc = if raw < c.max_volatility_accumulator as u64 { raw } else { c.max_volatility_accumulator as u64 };
+    let mut expect = v0;
+    expect.volatility_accumulator = acc as u32;
+    match &m1 {
+        FeeRateManager::Adaptive { tick_group_index, adaptive_fee_variables, .. } => {
+            assert!(*tick_group_index == if a_to_b { last - 1 } else { last + 1 });
+            assert!(same_vars(adaptive_fee_variables, &expect));
+        }
+        _ => assert!(false),
+    }
+    core::mem::forget(m1);
+}
+
+// ---- instances (group size fixed per harness) ----
+/// (6) FeeRateManager::new, tick_group_size == 1
+// @verif prop=C14 tier=thorough timeout=900
+#[kani::proof]
+#[kani::solver(kissat)]
+#[kani::unwind(18)]
+#[kani::stub(alloc::fmt::format, stub_format)]
+#[kani::stub(<anchor_lang::error::Error as core::convert::From<::whirlpool::errors::ErrorCode>>::from, stub_err_from_code)]
+#[kani::stub(::whirlpool::math::tick_math::sqrt_price_from_tick_index, t::stub_sqrt_price_from_tick_index)]
+#[kani::stub(::whirlpool::state::oracle::AdaptiveFeeVariables::update_reference, stub_update_reference)]
+fn c14_manager_new_1() {
+    manager_new(1);
+}
+/// (6) FeeRateManager::new, tick_group_size == 64
+// @verif prop=C14 tier=quick timeout=300
+#[kani::proof]
+#[kani::unwind(18)]
+#[kani::stub(alloc::fmt::format, stub_format)]
+#[kani::stub(<anchor_lang::error::Error as core::convert::From<::whirlpool::errors::ErrorCode>>::from, stub_err_from_code)]
+#[kani::stub(::whirlpool::math::tick_math::sqrt_price_from_tick_index, t::stub_sqrt_price_from_tick_index)]
+#[kani::stub(::whirlpool::state::oracle::AdaptiveFeeVariables::update_reference, stub_update_reference)]
+fn c14_manager_new_64() {
+    manager_new(64);
+}
+/// (6) FeeRateManager::new, tick_group_size == 32896
+// @verif prop=C14 tier=quick timeout=300
+#[kani::proof]
+#[kani::unwind(18)]
+#[kani::stub(alloc::fmt::format, stub_format)]
+#[kani::stub(<anchor_lang::error::Error as core::convert::From<::whirlpool::errors::ErrorCode>>::from, stub_err_from_code)]
+#[kani::stub(::whirlpool::math::tick_math::sqrt_price_from_tick_index, t::stub_sqrt_price_from_tick_index)]
+#[kani::stub(::whirlpool::state::oracle::AdaptiveFeeVariables::update_reference, stub_update_reference)]
+fn c14_manager_new_32896() {
+    manager_new(32896);
+}
+/// (7) get_bounded_sqrt_price_target, tick_group_size == 64
+// @verif prop=C14 tier=thorough timeout=900
+#[kani::proof]
+#[kani::unwind(18)]
+#[kani::stub(alloc::fmt::format, stub_format)]
+#[kani::stub(<anchor_lang::error::Error as core::convert::From<::whirlpool::errors::ErrorCode>>::from, stub_err_from_code)]
+#[kani::stub(::whirlpool::math::tick_math::sqrt_price_from_tick_index, t::stub_sqrt_price_from_tick_index)]
+#[kani::stub(::whirlpool::state::oracle::AdaptiveFeeVariables::update_reference, stub_update_reference)]
+fn c14_bounded_target_64() {
+    bounded_target(64);
+}
+/// (7) get_bounded_sqrt_price_target, tick_group_size == 32896
+// @verif prop=C14 tier=quick timeout=300
+#[kani::proof]
+#[kani::unwind(18)]
+#[kani::stub(alloc::fmt::format, stub_format)]
+#[kani::stub(<anchor_lang::error::Error as core::convert::From<::whirlpool::errors::ErrorCode>>::from, stub_err_from_code)]
+#[kani::stub(::whirlpool::math::tick_math::sqrt_price_from_tick_index, t::stub_sqrt_price_from_tick_index)]
+#[kani::stub(::whirlpool::state::oracle::AdaptiveFeeVariables::update_reference, stub_update_reference)]
+fn c14_bounded_target_32896() {
+    bounded_target(32896);
+}
+/// (8) advance_tick_group_after_skip, tick_group_size == 1, a_to_b == true, ended on the next initialized tick == true
+// @verif prop=C14 tier=thorough timeout=900
+#[kani::proof]
+#[kani::unwind(18)]
+#[kani::stub(alloc::fmt::format, stub_format)]
+#[kani::stub(<anchor_lang::error::Error as core::convert::From<::whirlpool::errors::ErrorCode>>::from, stub_err_from_code)]
+#[kani::stub(::whirlpool::math::tick_math::sqrt_price_from_tick_index, t::stub_sqrt_price_from_tick_index)]
+#[kani::stub(::whirlpool::math::tick_math::tick_index_from_sqrt_price, t::stub_tick_index_from_sqrt_price)]
+fn c14_after_skip_1_a2b_on_tick() {
+    after_skip_closed_form(1, true, true);
+}
+/// (8) advance_tick_group_after_skip, tick_group_size == 1, a_to_b == true, ended on the next initialized tick == false
+// @verif prop=C14 tier=thorough timeout=900
+#[kani::proof]
+#[kani::unwind(18)]
+#[kani::stub(alloc::fmt::format, stub_format)]
+#[kani::stub(<anchor_lang::error::Error as core::convert::From<::whirlpool::errors::ErrorCode>>::from, stub_err_from_code)]
+#[kani::stub(::whirlpool::math::tick_math::sqrt_price_from_tick_index, t::stub_sqrt_price_from_tick_index)]
+#[kani::stub(::whirlpool::math::tick_math::tick_index_from_sqrt_price, t::stub_tick_index_from_sqrt_price)]
+fn c14_after_skip_1_a2b_off_tick() {
+    after_skip_closed_form(1, true, false);
+}
+/// (8) advance_tick_group_after_skip, tick_group_size == 1, a_to_b == false, ended on the next initialized tick == true
+// @verif prop=C14 tier=thorough timeout=900
+#[kani::proof]
+#[kani::unwind(18)]
+#[kani::stub(alloc::fmt::format, stub_format)]
+#[kani::stub(<anchor_lang::error::Error as core::convert::From<::whirlpool::errors::ErrorCode>>::from, stub_err_from_code)]
+#[kani::stub(::whirlpool::math::tick_math::sqrt_price_from_tick_index, t::stub_sqrt_price_from_tick_index)]
+#[kani::stub(::whirlpool::math::tick_math::tick_index_from_sqrt_price, t::stub_tick_index_from_sqrt_price)]
+fn c14_after_skip_1_b2a_on_tick() {
+    after_skip_closed_form(1, false, true);
+}
+/// (8) advance_tick_group_after_skip, tick_group_size == 1, a_to_b == false, ended on the next initialized tick == false
+// @verif prop=C14 tier=thorough timeout=900
+#[kani::proof]
+#[kani::unwind(18)]
+#[kani::stub(alloc::fmt::format, stub_format)]
+#[kani::stub(<anchor_lang::error::Error as core::convert::From<::whirlpool::errors::ErrorCode>>::from, stub_err_from_code)]
+#[kani::stub(::whirlpool::math::tick_math::sqrt_price_from_tick_index, t::stub_sqrt_price_from_tick_index)]
+#[kani::stub(::whirlpool::math::tick_math::tick_index_from_sqrt_price, t::stub_tick_index_from_sqrt_price)]
+fn c14_after_skip_1_b2a_off_tick() {
+    after_skip_closed_form(1, false, false);
+}
+/// (8) advance_tick_group_after_skip, tick_group_size == 64, a_to_b == true, ended on the next initialized tick == true
+// @verif prop=C14 tier=quick timeout=300
+#[kani::proof]
+#[kani::unwind(18)]
+#[kani::stub(alloc::fmt::format, stub_format)]
+#[kani::stub(<anchor_lang::error::Error as core::convert::From<::whirlpool::errors::ErrorCode>>::from, stub_err_from_code)]
+#[kani::stub(::whirlpool::math::tick_math::sqrt_price_from_tick_index, t::stub_sqrt_price_from_tick_index)]
+#[kani::stub(::whirlpool::math::tick_math::tick_index_from_sqrt_price, t::stub_tick_index_from_sqrt_price)]
+fn c14_after_skip_64_a2b_on_tick() {
+    after_skip_closed_form(64, true, true);
+}
+/// (8) advance_tick_group_after_skip, tick_group_size == 64, a_to_b == true, ended on the next initialized tick == false
+// @verif prop=C14 tier=thorough timeout=900
+#[kani::proof]
+#[kani::unwind(18)]
+#[kani::stub(alloc::fmt::format, stub_format)]
+#[kani::stub(<anchor_lang::error::Error as core::convert::From<::whirlpool::errors::ErrorCode>>::from, stub_err_from_code)]
+#[kani::stub(::whirlpool::math::tick_math::sqrt_price_from_tick_index, t::stub_sqrt_price_from_tick_index)]
+#[kani::stub(::whirlpool::math::tick_math::tick_index_from_sqrt_price, t::stub_tick_index_from_sqrt_price)]
+fn c14_after_skip_64_a2b_off_tick() {
+    after_skip_closed_form(64, true, false);
+}
+/// (8) advance_tick_group_after_skip, tick_group_size == 64, a_to_b == false, ended on the next initialized tick == true
+// @verif prop=C14 tier=thorough timeout=900
+#[kani::proof]
+#[kani::unwind(18)]
+#[kani::stub(alloc::fmt::format, stub_format)]
+#[kani::stub(<anchor_lang::error::Error as core::convert::From<::whirlpool::errors::ErrorCode>>::from, stub_err_from_code)]
+#[kani::stub(::whirlpool::math::tick_math::sqrt_price_from_tick_index, t::stub_sqrt_price_from_tick_index)]
+#[kani::stub(::whirlpool::math::tick_math::tick_index_from_sqrt_price, t::stub_tick_index_from_sqrt_price)]
+fn c14_after_skip_64_b2a_on_tick() {
+    after_skip_closed_form(64, false, true);
+}
+/// (8) advance_tick_group_after_skip, tick_group_size == 64, a_to_b == false, ended on the next initialized tick == false
+// @verif prop=C14 tier=thorough timeout=900
+#[kani::proof]
+#[kani::unwind(18)]
+#[kani::stub(alloc::fmt::format, stub_format)]
+#[kani::stub(<anchor_lang::error::Error as core::convert::From<::whirlpool::errors::ErrorCode>>::from, stub_err_from_code)]
+#[kani::stub(::whirlpool::math::tick_math::sqrt_price_from_tick_index, t::stub_sqrt_price_from_tick_index)]
+#[kani::stub(::whirlpool::math::tick_math::tick_index_from_sqrt_price, t::stub_tick_index_from_sqrt_price)]
+fn c14_after_skip_64_b2a_off_tick() {
+    after_skip_closed_form(64, false, false);
+}
+/// (8) advance_tick_group_after_skip, tick_group_size == 32896, a_to_b == true, ended on the next initialized tick == true
+// @verif prop=C14 tier=quick timeout=300
+#[kani::proof]
+#[kani::unwind(18)]
+#[kani::stub(alloc::fmt::format, stub_format)]
+#[kani::stub(<anchor_lang::error::Error as core::convert::From<::whirlpool::errors::ErrorCode>>::from, stub_err_from_code)]
+#[kani::stub(::whirlpool::math::tick_math::sqrt_price_from_tick_index, t::stub_sqrt_price_from_tick_index)]
+#[kani::stub(::whirlpool::math::tick_math::tick_index_from_sqrt_price, t::stub_tick_index_from_sqrt_price)]
+fn c14_after_skip_32896_a2b_on_tick() {
+    after_skip_closed_form(32896, true, true);
+}
+/// (8) advance_tick_group_after_skip, tick_group_size == 32896, a_to_b == true, ended on the next initialized tick == false
+// @verif prop=C14 tier=quick timeout=300
+#[kani::proof]
+#[kani::unwind(18)]
+#[kani::stub(alloc::fmt::format, stub_format)]
+#[kani::stub(<anchor_lang::error::Error as core::convert::From<::whirlpool::errors::ErrorCode>>::from, stub_err_from_code)]
+#[kani::stub(::whirlpool::math::tick_math::sqrt_price_from_tick_index, t::stub_sqrt_price_from_tick_index)]
+#[kani::stub(::whirlpool::math::tick_math::tick_index_from_sqrt_price, t::stub_tick_index_from_sqrt_price)]
+fn c14_after_skip_32896_a2b_off_tick() {
+    after_skip_closed_form(32896, true, false);
+}
+/// (8) advance_tick_group_after_skip, tick_group_size == 32896, a_to_b == false, ended on the next initialized tick == true
+// @verif prop=C14 tier=quick timeout=300
+#[kani::proof]
+#[kani::unwind(18)]
+#[kani::stub(alloc::fmt::format, stub_format)]
+#[kani::stub(<anchor_lang::error::Error as core::convert::From<::whirlpool::errors::ErrorCode>>::from, stub_err_from_code)]
+#[kani::stub(::whirlpool::math::tick_math::sqrt_price_from_tick_index, t::stub_sqrt_price_from_tick_index)]
+#[kani::stub(::whirlpool::math::tick_math::tick_index_from_sqrt_price, t::stub_tick_index_from_sqrt_price)]
+fn c14_after_skip_32896_b2a_on_tick() {
+    after_skip_closed_form(32896, false, true);
+}
+/// (8) advance_tick_group_after_skip, tick_group_size == 32896, a_to_b == false, ended on the next initialized tick == false
+// @verif prop=C14 tier=quick timeout=300
+#[kani::proof]
+#[kani::unwind(18)]
+#[kani::stub(alloc::fmt::format, stub_format)]
+#[kani::stub(<anchor_lang::error::Error as core::convert::From<::whirlpool::errors::ErrorCode>>::from, stub_err_from_code)]
+#[kani::stub(::whirlpool::math::tick_math::sqrt_price_from_tick_index, t::stub_sqrt_price_from_tick_index)]
+#[kani::stub(::whirlpool::math::tick_math::tick_index_from_sqrt_price, t::stub_tick_index_from_sqrt_price)]
+fn c14_after_skip_32896_b2a_off_tick() {
+    after_skip_closed_form(32896, false, false);
+}
+
+/// (10) trade-enable time, function level: OracleAccessor::new on a program-owned Oracle account of this pool, then
+/// is_trade_enabled(now) == Ok(trade_enable_timestamp <= now) for all u64 pairs (the four swap handlers return
+/// Err(TradeIsNotEnabled) exactly when this is Ok(false)); an uninitialized oracle (system-owned, empty) never blocks.
+// @verif prop=C14 tier=quick timeout=300
+#[kani::proof]
+#[kani::unwind(34)]
+#[kani::stub(alloc::fmt::format, stub_format)]
+#[kani::stub(<anchor_lang::error::Error as core::convert::From<::whirlpool::errors::ErrorCode>>::from, stub_err_from_code)]
+#[kani::stub(<anchor_lang::error::Error as core::convert::From<anchor_lang::error::ErrorCode>>::from, stub_err_from_anchor_code)]
+fn c14_trade_enable_timestamp() {
+    use anchor_lang::prelude::{Account, AccountInfo, Pubkey};
+    use anchor_lang::Discriminator;
+    let program_id = ::whirlpool::ID;
+    let system_id = anchor_lang::solana_program::system_program::ID;
+    let wp_key = Pubkey::new_from_array(kani::any());
+    let or_key = Pubkey::new_from_array(kani::any());
+    let tet: u64 = kani::any();
+    let now: u64 = kani::any();
+    let initialized: bool = kani::any();
+    let c = raw_constants();
+    let mut wp_l = 1u64;
+    let mut wp_data = [0u8; Whirlpool::LEN];
+    wp_data[..8].copy_from_slice(Whirlpool::DISCRIMINATOR);
+    let wp_ai = AccountInfo::new(&wp_key, false, true, &mut wp_l, &mut wp_data[..], &program_id, false, 0);
+    let wp: Account<Whirlpool> = Account::try_from(&wp_ai).unwrap();
+    let mut or_l = 1u64;
+    let mut or_data = [0u8; Oracle::LEN];
+    or_data[..8].copy_from_slice(Oracle::DISCRIMINATOR);
+    or_data[8..40].copy_from_slice(&wp_key.to_bytes());
+    or_data[40..48].copy_from_slice(&tet.to_le_bytes());
+    or_data[48..50].copy_from_slice(&{ c.filter_period }.to_le_bytes());
+    or_data[50..52].copy_from_slice(&{ c.decay_period }.to_le_bytes());
+    let mut empty = [0u8; 0];
+    let or_ai = if initialized {
+        AccountInfo::new(&or_key, false, true, &mut or_l, &mut or_data[..], &program_id, false, 0)
+    } else {
+        AccountInfo::new(&or_key, false, false, &mut or_l, &mut empty[..], &system_id, false, 0)
+    };
+    let acc = OracleAccessor::new(&wp, or_ai);
+    let acc = match acc {
+        Ok(a) => a,
+        Err(e) => {
+            core::mem::forget(e);
+            assert!(false, "accessor must accept the pool's oracle");
+            return;
+        }
+    };
+    let r = acc.is_trade_enabled(now);
+    kani::cover!(matches!(r, Ok(false)), "trading refused");
+    kani::cover!(matches!(r, Ok(true)) && initialized && tet > 0, "trading allowed after the enable time");
+    match &r {
+        Ok(enabled) => assert!(*enabled == (!initialized || tet <= now)),
+        Err(_) => assert!(false, "is_trade_enabled must not fail"),
+    }
+    // same pool data reach the fee manager: adaptive info present iff the oracle is initialized
+    let info = acc.get_adaptive_fee_info();
+    match &info {
+        Ok(Some(i)) => assert!(initialized && { i.constants.filter_period } == { c.filter_period } && { i.constants.decay_period } == { c.decay_period }),
+        Ok(None) => assert!(!initialized),
+        Err(_) => assert!(false),
+    }
+    core::mem::forget(r);
+    core::mem::forget(info);
+    core::mem::forget(acc);
+    core::mem::forget(wp);
 }
